@@ -13,7 +13,8 @@ THRESHOLDS = [0.5, 1.0, 2.0, 4.0, 5.0, 8.0]
 
 
 class Record:
-    def __init__(self, dt, t0, rain, level, removed, pre, post, et=None, tz="UTC"):
+    def __init__(self, dt, t0, rain, level, removed, pre, post, et=None, tz="UTC", phase=0):
+        self.phase = phase        # the level logger's clock runs `phase` seconds after the rain gauge's
         self.dt = dt
         self.t0 = t0
         self.rain = rain          # intensities for steps -pre .. n-1+post  (list of floats)
@@ -37,13 +38,13 @@ class Record:
             et = [(t0 + (i - self.pre) * dt, 0.125) for i in range(nr + 2)]
         else:
             et = [(t0 + (i - self.pre) * dt, self.et[i % len(self.et)]) for i in range(nr + 2)]
-        level = [(t0 + i * dt, v) for i, v in enumerate(self.level) if i not in self.removed]
+        level = [(t0 + i * dt + self.phase, v) for i, v in enumerate(self.level) if i not in self.removed]
         return rain, et, level
 
     def describe(self):
         return {
             "dt": self.dt, "t0": self.t0, "n": self.n, "pre": self.pre, "post": self.post,
-            "rain": self.rain, "level": self.level, "removed": sorted(self.removed),
+            "rain": self.rain, "level": self.level, "removed": sorted(self.removed), "phase": self.phase,
         }
 
 
